@@ -41,6 +41,9 @@ pub async fn run_name_case(addr: SocketAddr, id: &RawIdentity, c: &NameCase) -> 
             }
             labels.push("refused-invalid");
         }
+        // cases share one server: the same valid name may already run the other messaging
+        // pattern (code 7, a refusal about the pattern, not about the name)
+        (FirstReply::Frame(Frame::Error(e)), Some(true)) if e.code == 7 => labels.push("valid-name-other-pattern-in-use"),
         (FirstReply::Frame(Frame::Error(e)), Some(true)) => return Outcome::fail("server-refused-valid-name", format!("{name}: valid but refused with code {}", e.code)),
         (FirstReply::Frame(Frame::Ok), Some(true)) => labels.push("accepted-valid"),
         (FirstReply::Frame(Frame::Ok), None) | (FirstReply::Frame(Frame::Error(_)), None) => labels.push("unicode-gray-zone"),
